@@ -86,8 +86,8 @@ Sched(c, lbl, n, r) ==
   /\ budget' = IF Preempt(c) THEN budget + 1 ELSE budget
   /\ sched' = Append(sched, [c |-> c, lbl |-> lbl, n |-> n, r |-> r])
 
-Finish(c, res, val) ==
-  /\ resp' = Append(resp, [c |-> c, i |-> opi[c], op |-> CurOp(c), res |-> res, val |-> val, txn |-> loc[c].txn,
+Finish(c, res, val, txn) ==
+  /\ resp' = Append(resp, [c |-> c, i |-> opi[c], op |-> CurOp(c), res |-> res, val |-> val, txn |-> txn,
                             \* first and last step of the operation in the schedule (real-time order)
                             t0 |-> IF pc[c] = "idle" THEN Len(sched) + 1 ELSE loc[c].t0, t1 |-> Len(sched) + 1])
   /\ pc' = [pc EXCEPT ![c] = "idle"]
@@ -117,17 +117,17 @@ RH0(c) ==
      /\ UNCHANGED <<entries, tabs, head, cobjs, crashes>>
      /\ CASE op.k = "tip" ->
                IF ~Has(t, op.key)
-               THEN /\ Finish(c, "notfound", -1) /\ loc' = [loc EXCEPT ![c] = l0] /\ UNCHANGED fresh
+               THEN /\ Finish(c, "notfound", -1, -1) /\ loc' = [loc EXCEPT ![c] = l0] /\ UNCHANGED fresh
                ELSE /\ loc' = [loc EXCEPT ![c] = [l0 EXCEPT !.par = t[op.key], !.cid = fresh]]
                     /\ fresh' = fresh + 1
                     /\ pc' = [pc EXCEPT ![c] = "putc"] /\ UNCHANGED <<opi, resp>>
           [] op.k = "scan" ->
                IF ~Has(t, op.key)
-               THEN /\ Finish(c, "notfound", -1) /\ loc' = [loc EXCEPT ![c] = l0] /\ UNCHANGED fresh
+               THEN /\ Finish(c, "notfound", -1, -1) /\ loc' = [loc EXCEPT ![c] = l0] /\ UNCHANGED fresh
                ELSE /\ loc' = [loc EXCEPT ![c] = [l0 EXCEPT !.par = t[op.key]]]
                     /\ pc' = [pc EXCEPT ![c] = "fin"] /\ UNCHANGED <<opi, resp, fresh>>
           [] op.k = "read" ->
-               /\ Finish(c, IF Has(t, op.key) THEN "ok" ELSE "notfound", IF Has(t, op.key) THEN t[op.key] ELSE -1)
+               /\ Finish(c, IF Has(t, op.key) THEN "ok" ELSE "notfound", IF Has(t, op.key) THEN t[op.key] ELSE -1, -1)
                /\ loc' = [loc EXCEPT ![c] = l0] /\ UNCHANGED fresh
           [] OTHER ->
                LET e == CASE op.k = "insert" -> [k |-> "add", key |-> op.key, val |-> fresh, txn |-> fresh]
@@ -137,7 +137,7 @@ RH0(c) ==
                    chk == IF op.k \in {"rmid", "rename"} /\ KeyOfId(t, op.id) = "none" THEN "notfound" ELSE Constraint(t, e)
                IN /\ fresh' = fresh + 1
                   /\ IF chk # "ok"
-                     THEN /\ Finish(c, chk, -1) /\ loc' = [loc EXCEPT ![c] = [l0 EXCEPT !.txn = e.txn]]
+                     THEN /\ Finish(c, chk, -1, e.txn) /\ loc' = [loc EXCEPT ![c] = [l0 EXCEPT !.txn = e.txn]]
                      ELSE /\ loc' = [loc EXCEPT ![c] = [l0 EXCEPT !.pend = e, !.jr = 0, !.txn = e.txn]]
                           /\ pc' = [pc EXCEPT ![c] = "cas"] /\ UNCHANGED <<opi, resp>>
 
@@ -165,7 +165,7 @@ RH1(c) ==
      /\ UNCHANGED <<entries, tabs, head, cobjs, fresh, crashes>>
      /\ IF chk = "ok" THEN pc' = [pc EXCEPT ![c] = "cas"] /\ UNCHANGED <<loc, opi, resp>>
         ELSE IF CurOp(c).k = "tip" THEN ToRmc(c, chk = "constraint", chk)
-        ELSE Finish(c, chk, -1) /\ UNCHANGED loc
+        ELSE Finish(c, chk, -1, loc[c].txn) /\ UNCHANGED loc
 
 \* ---- Queue.CommitAt part 1: PutIfNotExists(at + 1) ------------------------------
 CAS(c) ==
@@ -177,7 +177,7 @@ CAS(c) ==
           /\ UNCHANGED <<entries, tabs, head, cobjs, at, tbl, fresh, crashes>>
           /\ IF loc[c].jr + 1 >= MaxRetries
              THEN IF CurOp(c).k = "tip" THEN ToRmc(c, FALSE, "unavailable")
-                  ELSE Finish(c, "unavailable", -1) /\ UNCHANGED loc
+                  ELSE Finish(c, "unavailable", -1, loc[c].txn) /\ UNCHANGED loc
              ELSE /\ loc' = [loc EXCEPT ![c].jr = @ + 1]
                   /\ pc' = [pc EXCEPT ![c] = "rh1"] /\ UNCHANGED <<opi, resp>>
      ELSE \* linearization point
@@ -193,7 +193,7 @@ WH(c) ==
   /\ head' = at[c] + 1
   /\ at' = [at EXCEPT ![c] = -1]                       \* Nil: forces a reload next time
   /\ Sched(c, "wh", at[c] + 1, "")
-  /\ Finish(c, "ok", IF loc[c].pend.k \in {"upd", "add"} THEN loc[c].pend.val ELSE -1)
+  /\ Finish(c, "ok", IF loc[c].pend.k \in {"upd", "add"} THEN loc[c].pend.val ELSE -1, loc[c].txn)
   /\ UNCHANGED <<entries, tabs, cobjs, tbl, loc, fresh, crashes>>
 
 \* ---- commits.Store.Remove of the loser's commit object --------------------------
@@ -205,13 +205,13 @@ RMC(c) ==
   /\ IF loc[c].retry /\ loc[c].cr + 1 < MaxCommitRetries
      THEN /\ loc' = [loc EXCEPT ![c].cr = @ + 1]
           /\ pc' = [pc EXCEPT ![c] = "relook"] /\ UNCHANGED <<opi, resp>>
-     ELSE /\ Finish(c, IF loc[c].retry THEN "commitfailed" ELSE loc[c].pend.k, -1) /\ UNCHANGED loc
+     ELSE /\ Finish(c, IF loc[c].retry THEN "commitfailed" ELSE loc[c].pend.k, -1, loc[c].txn) /\ UNCHANGED loc
 
 \* ---- a query drains the data of the commit it pinned -----------------------------
 Fin(c) ==
   /\ pc[c] = "fin" /\ CanRun(c)
   /\ Sched(c, "fin", 0, "")
-  /\ Finish(c, "ok", loc[c].par)
+  /\ Finish(c, "ok", loc[c].par, -1)
   /\ UNCHANGED <<entries, tabs, head, cobjs, at, tbl, loc, fresh, crashes>>
 
 \* ---- C17: fail-stop of a client at any point -------------------------------------
